@@ -28,17 +28,20 @@ def disjointMemB (secs : Nat → Sec) (parts : List (Nat × List Rec)) : Bool :=
       || a.2.memSize == 0 || b.2.memSize == 0)
     ((flatParts parts).filter fun (sid, _) => (secs sid).alloc)
 
+/-- One event of `locsForward`: a location applied by this event is at or above the address cursor. -/
+def stepFwd (il : Nat → Bool) (secs : Nat → Sec) (c : Cursor) (e : Event) : Bool :=
+  match e with
+  | .segStart id => if il id then (match c.pending with | some a => decide (c.mem ≤ a) | none => true) else true
+  | .section sid => (match (secs sid).loc with | some a => decide (c.mem ≤ a) | none => true)
+  | _ => true
+
 /-- Hypothesis of `parts_disjoint_mem`: every user location (linker script `. = X`, `--section-start`) is at
 or above the address cursor at the moment it is applied. -/
 def locsForward (cfg : Config) (segIsLoad : Nat → Bool) (segAl : List (Nat × Nat)) (secs : Nat → Sec) :
     Cursor → List Event → Bool
   | _, [] => true
   | c, e :: es =>
-    let ok := match e with
-      | .segStart id => if segIsLoad id then (match c.pending with | some a => c.mem ≤ a | none => true) else true
-      | .section sid => (match (secs sid).loc with | some a => c.mem ≤ a | none => true)
-      | _ => true
-    ok && locsForward cfg segIsLoad segAl secs (layoutStep cfg segIsLoad segAl secs c e).1 es
+    stepFwd segIsLoad secs c e && locsForward cfg segIsLoad segAl secs (layoutStep cfg segIsLoad segAl secs c e).1 es
 
 /-- Segment ids: each is started exactly once, ended exactly once afterwards, and nothing else refers to it. -/
 def wellBracketedB (evs : List Event) (nSegs : Nat) : Bool :=
